@@ -21,6 +21,7 @@
 //!        `update`, `complete`, drop of the `ReservedSession`)  => `ok` | `err X`
 //!   `rm <uid>`            `Sessions::remove`  => `ok`
 //!   `t <ms>`              time passes
+//!   `nuid <n>`            position the allocator of the internal session ids (28 bits; it wraps)
 //!   `swa` / `swo`         `handle_accept_timeout_rx_packet` / `handle_orphaned_rx_packet` on the real slot => `swept 0|1`
 //!   `swd`                 `handle_dropped_exchange`  => as in `tab` cases
 //! Every line: `<result> # <table snapshot> @ <waiting message or ->`.
@@ -137,6 +138,11 @@ impl<'a, C: Crypto> World<'a, C> {
             }
             "t" => {
                 MockDriver::get().advance(Duration::from_millis(num(1)));
+                same("ok")
+            }
+            // position the allocator of the internal 28-bit session ids (it wraps after 2^28 sessions)
+            "nuid" => {
+                self.matter.with_state(|st| st.verif_sessions_mut().verif_set_next_unique_id(num(1) as u32));
                 same("ok")
             }
             "arr" => {
